@@ -195,9 +195,18 @@ func checkC06(c *km.Ctx) {
 	r.Extra["route_kinds"] = kindCount
 
 	// AWS path: the generator is invoked dynamically inside the issuer; require verified identity + allowed account
-	if gen := c.MustFunc("R-C06-1", "lib/server/aws_identity_cert", "(*Issuer).generateRoleCert"); gen != nil {
+	{
 		reqH := c.MustFunc("R-C06-1", "lib/server/aws_identity_cert", "(*Issuer).requestHandler")
 		n := 0
+		// wherever in the issuer's package the configured generator is invoked
+		var gens []*ssa.Function
+		for _, fn := range c.P.AllFuncs {
+			if fn.Pkg != nil && fn.Pkg.Pkg.Path() == km.ModPath+"/lib/server/aws_identity_cert" {
+				gens = append(gens, fn)
+			}
+		}
+		for _, gen := range gens {
+			gen := gen
 		km.Instrs(gen, func(in ssa.Instruction) {
 			cl, ok := in.(*ssa.Call)
 			if !ok || cl.Common().IsInvoke() || km.StaticCallee(cl.Common()) != nil {
@@ -217,6 +226,7 @@ func checkC06(c *km.Ctx) {
 			}
 			r.Add("R-C06-1", km.FuncName(gen), "route aws -> params.CertificateGenerator", posOf(c, in), "aws route: certificate generator requires CallerIdentityOK ∧ AccountAllowed", found, ok1 && ok2b)
 		})
+		}
 		if n == 0 {
 			r.AnchorLost("R-C06-1", "call of params.CertificateGenerator in aws_identity_cert.(*Issuer).generateRoleCert")
 		}
